@@ -455,9 +455,10 @@ theorem eqMod_seq_step {e : Env} {D D' : Nat → Bool} {a a' : Pat} (k : Pat) (h
 
 /-- the first factors have the same first success and agree modulo `D`; the second factor always
     succeeds, or it fails at every position of `D` -/
-theorem headEq_seq_step {e : Env} {D : Nat → Bool} {a a' : Pat} (k : Pat) (hh : HeadEq e false a a')
-    (h : EqMod e D false a a') (hk : Total e k ∨ Kills e D k) : HeadEq e false (.seq a k) (.seq a' k) := by
-  rcases hk with hk | hk
+theorem headEq_seq_step {e : Env} {D : Nat → Bool} {a a' : Pat} (k : Pat)
+    (h : EqMod e D false a a') (hk : (HeadEq e false a a' ∧ Total e k) ∨ Kills e D k) :
+    HeadEq e false (.seq a k) (.seq a' k) := by
+  rcases hk with ⟨hh, hk⟩ | hk
   · intro st
     simp only [m, Bool.false_eq_true, if_false]
     rw [head?_flatMap_of_ne_nil _ _ (fun x _ => hk x), head?_flatMap_of_ne_nil _ _ (fun x _ => hk x), hh st]
@@ -473,7 +474,7 @@ theorem Holds.trans {e : Env} {d : Bool} {r1 r2 r : Res} {p q s : Pat} (h1 : Hol
 theorem seqStep_core {e : Env} {o : Oracle} (hs : o.Sound e) {a a' : Pat} (k : Pat) {ra : Res}
     (ha : Holds e false ra a a') (herr : (stepSites o k ra.sites).2 = []) :
     EqMod e (dead e (stepSites o k ra.sites).1) false (.seq a k) (.seq a' k) ∧
-      (ra.headOK = true → (totalS k || (stepSites o k ra.sites).1.isEmpty) = true →
+      (((stepSites o k ra.sites).1.isEmpty || (ra.headOK && totalS k)) = true →
         HeadEq e false (.seq a k) (.seq a' k)) := by
   constructor
   · apply eqMod_seq_step k ha.1
@@ -483,12 +484,12 @@ theorem seqStep_core {e : Env} {o : Oracle} (hs : o.Sound e) {a a' : Pat} (k : P
     rcases stepSites_spec hs k ra.sites herr s hsm with h1 | ⟨h1, h2⟩
     · exact Or.inl (h1 st hd)
     · exact Or.inr ⟨dead_of_mem h1 hd, h2 st hd⟩
-  · intro hh ht
-    apply headEq_seq_step k (ha.headEq hh) ha.1
-    rw [Bool.or_eq_true] at ht
-    rcases ht with ht | ht
-    · exact Or.inl (totalS_sound e k ht)
+  · intro ht
+    apply headEq_seq_step k ha.1
+    rw [Bool.or_eq_true, Bool.and_eq_true] at ht
+    rcases ht with ht | ⟨hh, ht⟩
     · exact Or.inr (kills_dead (stepSites_all_killed hs k ra.sites herr (by simpa using ht)))
+    · exact Or.inl ⟨ha.headEq hh, totalS_sound e k ht⟩
 
 theorem seqStep_errs {o : Oracle} {k : Pat} {ra rb : Res} (h : (seqStep o k ra rb).errs = []) :
     ra.errs = [] ∧ rb.errs = [] ∧ (stepSites o k ra.sites).2 = [] := by
@@ -508,7 +509,7 @@ theorem seqStep_sound_left {e : Env} {o : Oracle} (hs : o.Sound e) {a a' b b' : 
     · intro i hi; simp only [seqStep, dead_append, hi, Bool.or_true]
   · intro hh
     simp only [seqStep, Bool.and_eq_true] at hh
-    exact (c2 hh.1.1 hh.2).trans (headEq_seq_ltr a' (hb.headEq hh.1.2))
+    exact (c2 hh.2).trans (headEq_seq_ltr a' (hb.headEq hh.1))
 
 /-- … against the second factor of the rewritten tree -/
 theorem seqStep_sound_right {e : Env} {o : Oracle} (hs : o.Sound e) {a a' b b' : Pat} {ra rb : Res}
@@ -522,7 +523,7 @@ theorem seqStep_sound_right {e : Env} {o : Oracle} (hs : o.Sound e) {a a' b b' :
     · intro i hi; simp only [seqStep, dead_append, hi, Bool.true_or]
   · intro hh
     simp only [seqStep, Bool.and_eq_true] at hh
-    exact (headEq_seq_ltr a (hb.headEq hh.1.2)).trans (c2 hh.1.1 hh.2)
+    exact (headEq_seq_ltr a (hb.headEq hh.1)).trans (c2 hh.2)
 
 theorem seqRes_sound {e : Env} {o : Oracle} (hs : o.Sound e) {a a' b b' : Pat} {ra rb : Res}
     (ha : Holds e false ra a a') (hb : Holds e false rb b b') (herr : (seqRes o b b' ra rb).errs = []) :
@@ -585,16 +586,35 @@ theorem union_dead_right (e : Env) (ra rb : Res) (i : Nat) (h : dead e rb.sites 
 theorem union_head {ra rb : Res} (h : (union ra rb).head = true) : ra.headOK = true ∧ rb.headOK = true := by
   simpa only [union, Bool.and_eq_true] using h
 
-theorem wrap_errs {r : Res} (h : r.wrap.errs = []) : r.errs = [] ∧ r.headOK = true := by
-  unfold Res.wrap at h
-  exact close_errs h
+theorem wrap_def (r : Res) : r.wrap = if r.close.errs.isEmpty = true then
+    { r.close with sites := [.top], made := r.close.made + 1 } else r.close := rfl
 
-theorem wrap_sites (r : Res) : r.wrap.sites = [.top] := rfl
+theorem wrap_errs {r : Res} (h : r.wrap.errs = []) : r.errs = [] ∧ r.headOK = true := by
+  rw [wrap_def] at h
+  apply close_errs
+  by_cases hc : r.close.errs.isEmpty = true
+  · rw [if_pos hc] at h; exact h
+  · rw [if_neg hc] at h; exact h
+
+theorem wrap_sites {r : Res} (h : r.wrap.errs = []) : r.wrap.sites = [.top] := by
+  rw [wrap_def] at h ⊢
+  by_cases hc : r.close.errs.isEmpty = true
+  · rw [if_pos hc]
+  · rw [if_neg hc] at h
+    exact absurd (by simp [h]) hc
+
+theorem topOf_errs {c : Res} {n : Nat} (h : (c.topOf n).errs = []) : c.errs = [] ∧ (c.topOf n).sites = [.top] := by
+  unfold Res.topOf at h ⊢
+  split
+  · rename_i hc; exact ⟨by simpa using hc, rfl⟩
+  · rename_i hc
+    rw [if_neg hc] at h
+    exact absurd (by simp [h]) hc
 
 /-- a construct wrapped in Atomic where only its first success matters -/
 theorem wrap_sound {e : Env} {r : Res} {p p' : Pat} (h : Holds e false r p p') (herr : r.wrap.errs = []) :
     Holds e false r.wrap p (.atomic p') :=
-  holds_top ((h.headEq (wrap_errs herr).2).trans (headEq_atomic e false p')) (wrap_sites r)
+  holds_top ((h.headEq (wrap_errs herr).2).trans (headEq_atomic e false p')) (wrap_sites herr)
 
 /-! ## loops -/
 
@@ -615,10 +635,102 @@ theorem canGo_of_hiAtLeast {hi : Option Nat} {lo : Nat} (h : hiAtLeast hi lo = t
   | none => rfl
   | some x => simp only [decide_eq_true_eq] at h ⊢; omega
 
-theorem quantRes_sound {e : Env} {d : Bool} {lzy : Bool} {lo : Nat} {hi : Option Nat} {lzy' : Bool} {lo' : Nat}
-    {hi' : Option Nat} {x x' : Pat} {r : Res} (hx : r.errs = [] → Holds e d r x x')
-    (herr : (quantRes lzy lo hi lzy' lo' hi' r).errs = []) :
-    Holds e d (quantRes lzy lo hi lzy' lo' hi' r) (.quant lzy lo hi x) (.quant lzy' lo' hi' x') := by
+/-- a loop whose body ends in rewritten places: if the bodies have the same first success, agree
+    modulo `D`, and both fail at the positions of `D`, the loops have the same first success
+    (the `EqMod` version of `iter_head_prune`) -/
+theorem iter_head_eqMod {D : Nat → Bool} (f g : St → List St)
+    (hhead : ∀ st, (f st).head? = (g st).head?) (heq : ∀ st, live D (f st) = live D (g st))
+    (hf : ∀ st, D st.pos = true → f st = []) (hg : ∀ st, D st.pos = true → g st = [])
+    (lzy : Bool) (lo : Nat) (hi : Option Nat) :
+    ∀ (fuel cnt : Nat) (st : St),
+      (iter f lzy lo hi fuel cnt st).head? = (iter g lzy lo hi fuel cnt st).head? := by
+  have ne_nil : ∀ (h : St → List St) (fuel cnt : Nat) (st : St), lo ≤ cnt → iter h lzy lo hi fuel cnt st ≠ [] := by
+    intro h fuel cnt st hlo
+    cases fuel with
+    | zero => simp [iter, hlo]
+    | succ fuel => cases lzy <;> simp [iter, hlo]
+  have dead_nil : ∀ (h : St → List St), (∀ st, D st.pos = true → h st = []) →
+      ∀ (fuel cnt : Nat) (st : St), ¬ lo ≤ cnt → D st.pos = true → iter h lzy lo hi fuel cnt st = [] := by
+    intro h hh fuel cnt st hlo hd
+    cases fuel with
+    | zero => simp [iter, hlo]
+    | succ fuel => cases lzy <;> simp [iter, hlo, hh st hd]
+  intro fuel
+  induction fuel with
+  | zero => intro cnt st; rfl
+  | succ fuel ih =>
+    intro cnt st
+    have hmore : ((f st).flatMap (fun st' =>
+            if (st'.pos == st.pos && decide (lo ≤ cnt + 1)) = true then [st']
+            else iter f lzy lo hi fuel (cnt + 1) st')).head?
+        = ((g st).flatMap (fun st' =>
+            if (st'.pos == st.pos && decide (lo ≤ cnt + 1)) = true then [st']
+            else iter g lzy lo hi fuel (cnt + 1) st')).head? := by
+      have hpt : ∀ y, (if (y.pos == st.pos && decide (lo ≤ cnt + 1)) = true then [y]
+            else iter f lzy lo hi fuel (cnt + 1) y).head?
+          = (if (y.pos == st.pos && decide (lo ≤ cnt + 1)) = true then [y]
+            else iter g lzy lo hi fuel (cnt + 1) y).head? := by
+        intro y; split
+        · rfl
+        · exact ih (cnt + 1) y
+      by_cases hlo : lo ≤ cnt + 1
+      · rw [head?_flatMap_of_ne_nil, head?_flatMap_of_ne_nil, hhead st]
+        · cases (g st).head? with
+          | none => rfl
+          | some y => exact hpt y
+        · intro y _; split
+          · simp
+          · exact ne_nil g fuel (cnt + 1) y hlo
+        · intro y _; split
+          · simp
+          · exact ne_nil f fuel (cnt + 1) y hlo
+      · have hF : ∀ (h : St → List St), (∀ st, D st.pos = true → h st = []) → ∀ y : St,
+            (fun t : St => !D t.pos) y = false →
+            (if (y.pos == st.pos && decide (lo ≤ cnt + 1)) = true then [y]
+              else iter h lzy lo hi fuel (cnt + 1) y) = [] := by
+          intro h hh y hy
+          have hd : D y.pos = true := by simpa using hy
+          have : (y.pos == st.pos && decide (lo ≤ cnt + 1)) = false := by simp [hlo]
+          rw [this]
+          exact dead_nil h hh fuel (cnt + 1) y hlo hd
+        rw [← flatMap_filter_of_dead (f st) _ _ (hF f hf), ← flatMap_filter_of_dead (g st) _ _ (hF g hg)]
+        have := heq st
+        simp only [live] at this
+        rw [this]
+        exact head?_flatMap_congr _ _ _ (fun y _ => hpt y)
+    have hm : (if canGo hi cnt = true then (f st).flatMap (fun st' =>
+            if (st'.pos == st.pos && decide (lo ≤ cnt + 1)) = true then [st']
+            else iter f lzy lo hi fuel (cnt + 1) st') else []).head?
+        = (if canGo hi cnt = true then (g st).flatMap (fun st' =>
+            if (st'.pos == st.pos && decide (lo ≤ cnt + 1)) = true then [st']
+            else iter g lzy lo hi fuel (cnt + 1) st') else []).head? := by
+      split
+      · exact hmore
+      · rfl
+    simp only [iter]
+    cases lzy
+    · simp only [Bool.false_eq_true, if_false]; exact head?_append_congr hm rfl
+    · simp only [if_true]; exact head?_append_congr rfl hm
+
+theorem headEq_quant_eqMod {e : Env} {D : Nat → Bool} {b b' : Pat} (lzy : Bool) (lo : Nat) (hi : Option Nat)
+    (hh : HeadEq e false b b') (h : EqMod e D false b b') (hb : Kills e D b) (hb' : Kills e D b') :
+    HeadEq e false (.quant lzy lo hi b) (.quant lzy lo hi b') := by
+  intro st
+  rw [m_quant, m_quant]
+  exact iter_head_eqMod _ _ hh h hb hb' lzy lo hi _ 0 st
+
+theorem bodyKills_sound {e : Env} {o : Oracle} (hs : o.Sound e) {x x' : Pat} {S : List Site}
+    (h : bodyKills o x x' S = true) : Kills e (dead e S) x ∧ Kills e (dead e S) x' := by
+  unfold bodyKills at h
+  rw [List.all_eq_true] at h
+  constructor
+  · exact kills_dead (fun s hm => (ks_sound hs s x).1 (by have := h s hm; rw [Bool.and_eq_true] at this; exact this.1))
+  · exact kills_dead (fun s hm => (ks_sound hs s x').1 (by have := h s hm; rw [Bool.and_eq_true] at this; exact this.2))
+
+theorem quantRes_sound {e : Env} {o : Oracle} (hs : o.Sound e) {d : Bool} {lzy : Bool} {lo : Nat} {hi : Option Nat}
+    {lzy' : Bool} {lo' : Nat} {hi' : Option Nat} {x x' : Pat} {r : Res} (hx : r.errs = [] → Holds e d r x x')
+    (herr : (quantRes o d x x' lzy lo hi lzy' lo' hi' r).errs = []) :
+    Holds e d (quantRes o d x x' lzy lo hi lzy' lo' hi' r) (.quant lzy lo hi x) (.quant lzy' lo' hi' x') := by
   unfold quantRes at herr ⊢
   by_cases h1 : lzy = lzy' ∧ lo = lo' ∧ hi = hi'
   · obtain ⟨rfl, rfl, rfl⟩ := h1
@@ -630,11 +742,19 @@ theorem quantRes_sound {e : Env} {d : Bool} {lzy : Bool} {lo : Nat} {hi : Option
       by_cases h3 : hi = some 1
       · subst h3
         simp only [if_true] at herr ⊢
-        obtain ⟨he, hk⟩ := close_errs herr
-        exact holds_top (headEq_quant_hi_one lzy lo ((hx he).headEq hk)) rfl
+        obtain ⟨hce, hts⟩ := topOf_errs herr
+        obtain ⟨he, hk⟩ := close_errs hce
+        exact holds_top (headEq_quant_hi_one lzy lo ((hx he).headEq hk)) hts
       · simp only [h3, if_false] at herr ⊢
-        obtain ⟨he, hs⟩ := eqOnly_errs herr
-        exact absurd (by simp [hs]) h2
+        by_cases h4 : d = false ∧ bodyKills o x x' r.sites = true
+        · obtain ⟨rfl, h4⟩ := h4
+          simp only [h4, and_self, if_true] at herr ⊢
+          obtain ⟨k1, k2⟩ := bodyKills_sound hs h4
+          have hb := hx herr
+          exact ⟨hb.1.quant lzy lo hi k1 k2, fun hh => headEq_quant_eqMod lzy lo hi (hb.headEq hh) hb.1 k1 k2⟩
+        · simp only [h4, if_false] at herr ⊢
+          obtain ⟨he, hs'⟩ := eqOnly_errs herr
+          exact absurd (by simp [hs']) h2
   · simp only [h1, if_false] at herr ⊢
     by_cases h2 : lzy = true ∧ lzy' = true ∧ lo = lo' ∧ hi' = some lo ∧ hiAtLeast hi lo = true
     · obtain ⟨rfl, rfl, rfl, rfl, h5⟩ := h2
@@ -643,11 +763,13 @@ theorem quantRes_sound {e : Env} {d : Bool} {lzy : Bool} {lo : Nat} {hi : Option
       by_cases h3 : lo = 1
       · subst h3
         simp only [if_true] at herr ⊢
-        obtain ⟨he, hk⟩ := close_errs herr
-        exact holds_top (hmin.trans (headEq_quant_hi_one true 1 ((hx he).headEq hk))) rfl
+        obtain ⟨hce, hts⟩ := topOf_errs herr
+        obtain ⟨he, hk⟩ := close_errs hce
+        exact holds_top (hmin.trans (headEq_quant_hi_one true 1 ((hx he).headEq hk))) hts
       · simp only [h3, if_false] at herr ⊢
-        obtain ⟨he, hs⟩ := eqOnly_errs herr
-        exact holds_top (hmin.trans (HeadEq.of_eq (quant_congr_dir true lo (some lo) ((hx he).eq hs)))) rfl
+        obtain ⟨hce, hts⟩ := topOf_errs herr
+        obtain ⟨he, hs'⟩ := eqOnly_errs hce
+        exact holds_top (hmin.trans (HeadEq.of_eq (quant_congr_dir true lo (some lo) ((hx he).eq hs')))) hts
     · simp only [h2, if_false, Res.fail] at herr
       cases herr
 
@@ -672,43 +794,65 @@ theorem seqMarker_sound {e : Env} {o : Oracle} (hs : o.Sound e) {a a' b : Pat} {
   · exact hr herr
 
 /-- the loop sites: the claims about the loop and its replacement -/
+theorem atomic_single_fixed {e : Env} {q : Pred} {n : Nat} {st : St} :
+    m e (.atomic (.quant false n (some n) (.chr q))) false st = m e (.quant false n (some n) (.chr q)) false st := by
+  rw [m_atomic]
+  exact take_one_of_length_le _ (atMostOne_quant_fixed false n (atMostOne_chr e false q) st)
+
+/-- the loop sites: the claims about the loop and its replacement -/
 theorem charSite_sound {e : Env} {lzy : Bool} {lo : Nat} {hi : Option Nat} {q : Pred} {p' : Pat} {r : Res}
     (h : charSite lzy lo hi q p' = some r) : r.errs = [] ∧ Holds e false r (.quant lzy lo hi (.chr q)) p' := by
   unfold charSite at h
-  split at h
-  · rename_i hp
-    subst hp
-    cases lzy with
-    | true =>
-      simp only [if_true, Option.some.injEq] at h
-      subst h
-      refine ⟨rfl, ?_, fun hh => by cases hh⟩
-      exact (lazy_charloop_eqMod_atomic e q lo hi).mono (fun i hi => by simp [dead, siteDead, hi])
-    | false =>
-      simp only [Bool.false_eq_true, if_false, Option.some.injEq] at h
-      subst h
-      refine ⟨rfl, ?_, fun _ => headEq_atomic e false _⟩
-      unfold loopSite
-      by_cases hlo : 1 ≤ lo
-      · rw [if_pos hlo]
-        exact (charloop_eqMod_atomic_between e q lo hi hlo).mono (fun i hi => by simpa [dead, siteDead] using hi)
-      · rw [if_neg hlo]
-        exact (charloop_eqMod_atomic e q lo hi).mono (fun i hi => by simp [dead, siteDead, hi])
-  · split at h
-    · rename_i hc
-      obtain ⟨rfl, h5, hp⟩ := hc
-      simp only [Option.some.injEq] at h
-      subst h
-      refine ⟨rfl, holds_top ?_ rfl⟩
-      have hmin := headEq_lazy_min e false lo hi (.chr q) (canGo_of_hiAtLeast h5)
-      rcases hp with hp | ⟨hlo, hp⟩
-      · subst hp
-        exact (hmin.trans (HeadEq.of_eq (repeater_lazy_eq_greedy e q lo))).trans (headEq_atomic e false _)
-      · subst hlo; subst hp
-        refine hmin.trans (HeadEq.of_eq (fun st => ?_))
-        rw [m_quant]
-        simp [iter, canGo, m]
-    · cases h
+  by_cases hc : hi = some lo ∧ (p' = .atomic (.quant false lo hi (.chr q)) ∨ p' = .quant false lo hi (.chr q))
+  · rw [if_pos hc] at h
+    obtain ⟨rfl, hp⟩ := hc
+    simp only [Option.some.injEq] at h
+    subst h
+    refine ⟨rfl, holds_of_eq (fun st => ?_) _⟩
+    have hrep : m e (.quant lzy lo (some lo) (.chr q)) false st = m e (.quant false lo (some lo) (.chr q)) false st := by
+      cases lzy
+      · rfl
+      · exact repeater_lazy_eq_greedy e q lo st
+    rcases hp with hp | hp
+    · subst hp
+      rw [hrep, atomic_single_fixed]
+    · subst hp; exact hrep
+  · rw [if_neg hc] at h
+    by_cases hp : p' = .atomic (.quant false lo hi (.chr q))
+    · rw [if_pos hp] at h
+      subst hp
+      cases lzy with
+      | true =>
+        simp only [if_true, Option.some.injEq] at h
+        subst h
+        refine ⟨rfl, ?_, fun hh => by cases hh⟩
+        exact (lazy_charloop_eqMod_atomic e q lo hi).mono (fun i hi => by simp [dead, siteDead, hi])
+      | false =>
+        simp only [Bool.false_eq_true, if_false, Option.some.injEq] at h
+        subst h
+        refine ⟨rfl, ?_, fun _ => headEq_atomic e false _⟩
+        unfold loopSite
+        by_cases hlo : 1 ≤ lo
+        · rw [if_pos hlo]
+          exact (charloop_eqMod_atomic_between e q lo hi hlo).mono (fun i hi => by simpa [dead, siteDead] using hi)
+        · rw [if_neg hlo]
+          exact (charloop_eqMod_atomic e q lo hi).mono (fun i hi => by simp [dead, siteDead, hi])
+    · rw [if_neg hp] at h
+      split at h
+      · rename_i hc
+        obtain ⟨rfl, h5, hp⟩ := hc
+        simp only [Option.some.injEq] at h
+        subst h
+        refine ⟨rfl, holds_top ?_ rfl⟩
+        have hmin := headEq_lazy_min e false lo hi (.chr q) (canGo_of_hiAtLeast h5)
+        rcases hp with hp' | ⟨hlo, hp'⟩
+        · subst hp'
+          exact (hmin.trans (HeadEq.of_eq (repeater_lazy_eq_greedy e q lo))).trans (headEq_atomic e false _)
+        · subst hlo; subst hp'
+          refine hmin.trans (HeadEq.of_eq (fun st => ?_))
+          rw [m_quant]
+          simp [iter, canGo, m]
+      · cases h
 
 theorem siteOf_sound {e : Env} {rtl lzy : Bool} {lo : Nat} {hi : Option Nat} {p' x : Pat} {r : Res}
     (h : siteOf rtl lzy lo hi p' x = some r) : r.errs = [] ∧ Holds e rtl r (.quant lzy lo hi x) p' := by
@@ -721,18 +865,18 @@ theorem siteOf_sound {e : Env} {rtl lzy : Bool} {lo : Nat} {hi : Option Nat} {p'
       exact charSite_sound h
   · cases h
 
-theorem quantGeneric_sound {e : Env} {rtl lzy : Bool} {lo : Nat} {hi : Option Nat} {x : Pat} {certx : Pat → Res}
-    (hx : ∀ y, (certx y).errs = [] → Holds e rtl (certx y) x y) (p' : Pat)
-    (herr : (quantGeneric rtl lzy lo hi certx p').errs = []) :
-    Holds e rtl (quantGeneric rtl lzy lo hi certx p') (.quant lzy lo hi x) p' := by
+theorem quantGeneric_sound {e : Env} {o : Oracle} (hs : o.Sound e) {rtl lzy : Bool} {lo : Nat} {hi : Option Nat} {x : Pat}
+    {certx : Pat → Res} (hx : ∀ y, (certx y).errs = [] → Holds e rtl (certx y) x y) (p' : Pat)
+    (herr : (quantGeneric o rtl x lzy lo hi certx p').errs = []) :
+    Holds e rtl (quantGeneric o rtl x lzy lo hi certx p') (.quant lzy lo hi x) p' := by
   unfold quantGeneric at herr ⊢
   split at herr
-  · exact quantRes_sound (hx _) herr
+  · exact quantRes_sound hs (hx _) herr
   · cases rtl with
     | true => simp [Res.fail] at herr
     | false =>
       simp only [Bool.false_eq_true, if_false] at herr ⊢
-      exact wrap_sound (quantRes_sound (hx _) (wrap_errs herr).1) herr
+      exact wrap_sound (quantRes_sound hs (hx _) (wrap_errs herr).1) herr
   · simp [Res.fail] at herr
 
 /-- dropping the Atomic node around something with at most one success, the body in tail position -/
@@ -939,7 +1083,7 @@ theorem cert_sound {e : Env} {o : Oracle} (hs : o.Sound e) :
       | some r => exact (siteOf_sound hsite).2
       | none =>
         rw [hsite] at h
-        exact quantGeneric_sound (fun y hy => ih d y hy) p' h
+        exact quantGeneric_sound hs (fun y hy => ih d y hy) p' h
 
 /-- **a certified pair of patterns has the same first success from every state** -/
 theorem certTop_headEq {e : Env} {o : Oracle} (hs : o.Sound e) {p p' : Pat} (h : certTop o p p' = true) :
